@@ -89,6 +89,7 @@ type vfwRun struct {
 	iniEnded, srcOpened, srcReturn bool
 	changed                        chan struct{}
 	holdT, holdS                   chan struct{} // non-nil: the proxy's Sends towards the initiator / the source wait (slow peer)
+	twinning, twinOpened           bool          // TW: a second stream with the same metadata is being opened / reached the source
 }
 
 type vfwSrcCall struct {
@@ -203,6 +204,18 @@ func (s *vfwSource) StreamWorkflowReplicationMessages(ss adminservice.AdminServi
 	if r == nil {
 		return status.Error(codes.FailedPrecondition, "no run")
 	}
+	h.mu.Lock()
+	tw := r.twinning
+	h.mu.Unlock()
+	if tw {
+		// the second stream of a TW command: the source serves it until the proxy half-closes or its context is done
+		h.note(r, map[string]interface{}{"ev": "TwinSrcOpen"}, func() { r.twinOpened = true })
+		for {
+			if _, err := ss.Recv(); err != nil {
+				return nil
+			}
+		}
+	}
 	call := &vfwSrcCall{ss: ss, end: make(chan error, 1), recvDone: make(chan struct{})}
 	md, _ := metadata.FromIncomingContext(ss.Context())
 	get := func(k string) int {
@@ -296,7 +309,7 @@ func (h *vfwHarness) serverInterceptor(srv any, ss grpc.ServerStream, info *grpc
 	h.mu.Lock()
 	r := h.cur
 	h.mu.Unlock()
-	if r == nil {
+	if r == nil || r.twinning {
 		return handler(srv, ss)
 	}
 	err := handler(srv, &vfwSrvStream{ServerStream: ss, h: h, r: r})
@@ -574,13 +587,20 @@ func (h *vfwHarness) runSchedule(sc *vfwSched) {
 	nSrc, nIni := 0, 0
 	expired := false
 	for i, c := range sc.Cmds {
-		if sc.Sync || c.C == "B" {
-			// delivery barrier: everything sent so far has arrived; once an end has happened: everything is torn down
+		if sc.Sync || c.C == "B" || c.C == "BM" || c.C == "BA" {
+			// delivery barrier: everything sent so far has arrived; once an end has happened: everything is torn down.
+			// BM / BA: one direction only (messages / acks) - the other direction may be held by a slow peer meanwhile
 			ended := false
 			cond := func() bool {
 				ended = r.ended
 				if r.ended {
 					return torn()
+				}
+				switch c.C {
+				case "BM":
+					return r.iniGot == r.srcSent
+				case "BA":
+					return r.srcGot == r.iniSent
 				}
 				return delivered()
 			}
@@ -600,7 +620,62 @@ func (h *vfwHarness) runSchedule(sc *vfwSched) {
 		call := r.src
 		h.mu.Unlock()
 		switch c.C {
-		case "B": // an explicit barrier in a racing script
+		case "B", "BM", "BA": // an explicit barrier in a racing script
+		case "TW":
+			// a second stream with the SAME cluster / shard metadata is opened while the first is up (a reconnect before the old
+			// stream is torn down), served by the source, and half-closed again: both must be relayed independently
+			h.note(r, nil, func() { r.twinning = true })
+			tctx, tcancel := context.WithCancel(metadata.NewOutgoingContext(context.Background(), md))
+			tw, terr := p.client.StreamWorkflowReplicationMessages(tctx)
+			twEnded := make(chan error, 1)
+			if terr == nil {
+				go func() {
+					for {
+						if _, e := tw.Recv(); e != nil {
+							twEnded <- e
+							return
+						}
+					}
+				}()
+			} else {
+				twEnded <- terr
+			}
+			var early error
+			dl := time.NewTimer(vfwDeadline)
+		twait:
+			for {
+				h.mu.Lock()
+				op := r.twinOpened
+				h.mu.Unlock()
+				if op {
+					break
+				}
+				select {
+				case early = <-twEnded:
+					twEnded <- early
+					break twait
+				case <-r.changed:
+				case <-dl.C:
+					break twait
+				}
+			}
+			dl.Stop()
+			errText := ""
+			if early != nil {
+				errText = early.Error()
+			}
+			h.note(r, map[string]interface{}{"ev": "Twin", "opened": r.twinOpened, "err": errText}, func() { r.twinning = false })
+			if terr == nil {
+				_ = tw.CloseSend()
+			}
+			endOK := false
+			select {
+			case <-twEnded:
+				endOK = true
+			case <-time.After(vfwDeadline):
+			}
+			tcancel()
+			h.note(r, map[string]interface{}{"ev": "TwinEnd", "ok": endOK}, nil)
 		case "TH", "SH": // the peer stops taking: the proxy's Sends in that direction wait
 			h.note(r, map[string]interface{}{"ev": "Hold", "dir": c.C[:1]}, func() {
 				if c.C == "TH" {
